@@ -361,6 +361,100 @@ def check_embed(out, before, after, s, tag, model_ok, case):
     return probs
 
 
+SESSION_READS = ["read", "html", "markdown", "raw", "html-noembedded"]
+
+
+def session_observe(mammoth, op, f):
+    """one read-only public call on a file object -> comparable outcome"""
+    try:
+        if op == "read":
+            return ("map", mammoth.read_embedded_style_map(f))
+        if op == "html":
+            r = mammoth.convert_to_html(f)
+        elif op == "markdown":
+            r = mammoth.convert_to_markdown(f)
+        elif op == "html-noembedded":
+            r = mammoth.convert_to_html(f, include_embedded_style_map=False)
+        else:
+            r = mammoth.extract_raw_text(f)
+        return ("result", r.value, [(m.type, m.message) for m in r.messages])
+    except Exception as e:  # noqa
+        return ("raised", type(e).__name__, str(e)[:200])
+
+
+def session_ops(rng, hist):
+    """a life of ONE file object: reads / conversions before, between and after the embeds of (a few maps of) a history; each embed
+    is followed by at least one read or conversion, and now and then by two of the same kind or by none at all"""
+    maps = list(hist) if len(hist) <= 4 else [hist[0]] + rng.sample(hist[1:-1], 2) + [hist[-1]]
+    maps = [m if len(m) < 4000 or rng.random() < 0.3 else m[:rng.choice([0, 7, 300])] for m in maps]
+    ops = []
+    for m in maps:
+        for _ in range(rng.choice([0, 1, 1, 2])):
+            ops.append([rng.choice(SESSION_READS)])
+        ops.append(["embed", m])
+        if rng.random() < 0.85:
+            ops.append([rng.choice(["read", "read", "html", "markdown"])])
+            if rng.random() < 0.3:
+                ops.append([rng.choice(SESSION_READS)])
+    ops.append([rng.choice(["read", "html"])])
+    return ops
+
+
+class Plain:
+    """a minimal seekable file object that is neither BytesIO nor a real file (and has no __slots__: hashable, weak-referenceable)"""
+
+    def __init__(self, data):
+        self.f = io.BytesIO(data)
+
+    def __getattr__(self, name):
+        return getattr(self.f, name)
+
+
+def run_session(data0, ops, file_kind, tmpdir):
+    """the statement speaks about "the file", i.e. the object the caller holds: whatever was asked of that object before, after
+    embed_style_map(f, s) a read on f returns s, and every read-only call on f gives what the same call gives on a freshly
+    opened copy of the bytes f now holds.  -> (index of the failing op, text) or None"""
+    import mammoth
+    path = None
+    if file_kind == "disk":
+        path = os.path.join(tmpdir, "s%d.docx" % os.getpid())
+        with open(path, "wb") as h:
+            h.write(data0)
+        f = open(path, "r+b")
+    elif file_kind == "plain":
+        f = Plain(data0)
+    else:
+        f = io.BytesIO(data0)
+
+    def current():
+        if file_kind == "disk":
+            f.flush()
+            with open(path, "rb") as h:
+                return h.read()
+        return (f.f if file_kind == "plain" else f).getvalue()
+    try:
+        last = None
+        for k, op in enumerate(ops):
+            if op[0] == "embed":
+                try:
+                    mammoth.embed_style_map(f, op[1])
+                except Exception as e:  # noqa
+                    return k, "embed_style_map raised %s on a file object that had been used before" % type(e).__name__
+                last = op[1]
+                continue
+            got = session_observe(mammoth, op[0], f)
+            want = session_observe(mammoth, op[0], io.BytesIO(current()))
+            if op[0] == "read" and last is not None and got != ("map", last):
+                return k, "after embed_style_map(f, %r) read_embedded_style_map(f) on the SAME file object gave %r" % (last[:40], repr(got[1])[:80] if got[0] == "map" else repr(got)[:120])
+            if got != want:
+                return k, "%s on the file object the maps were embedded into differs from %s on a fresh copy of its bytes: %s vs %s" % (op[0], op[0], repr(got)[:120], repr(want)[:120])
+        return None
+    finally:
+        if path:
+            f.close()
+            os.unlink(path)
+
+
 def run(out, tier, seed, model_ok):
     import mammoth
     rng = random.Random(seed * 7919 + 12)
@@ -431,6 +525,15 @@ def run(out, tier, seed, model_ok):
                 out.violation("; ".join(probs[:3]), case)
                 break
             cur = after
+        # one file object for a whole life: reads / conversions before and between the embeds (own stream: the histories stay as they were)
+        srng = random.Random(seed * 1000003 + i + 991)
+        kind = srng.choice(["bytesio", "bytesio", "disk", "disk", "plain"])
+        ops = session_ops(srng, hist)
+        bad = run_session(data0, ops, kind, tmpdir)
+        out.count(key="session-%d-%d" % (seed, i), nontrivial=True)
+        ft["session_read_before_embed"] = ft.get("session_read_before_embed", 0) + (1 if ops[0][0] != "embed" else 0)
+        if bad:
+            out.violation(bad[1], {"kind": "embed-session", "docx_hex": data0.hex() if len(data0) < 30000 else None, "ops": ops[:bad[0] + 1], "file_kind": kind, "seed": seed * 1000003 + i})
         # faults: an I/O error at each file operation of one embed
         if i % (3 if tier == "quick" else 2) == 0:
             s = style_text(rng) if rng.random() < 0.75 else rng.choice(EDGE_MAPS)
@@ -503,7 +606,9 @@ def run(out, tier, seed, model_ok):
                 "file operation of the public call, those after the completed rewrite included (exception => file unchanged; only a fault between the first data write and "
                 "the return of the closing truncate is the known finding K1), and an unencodable string; a call that RETURNS NORMALLY although an operation failed is held to the whole statement of a successful "
                 "embed (round trip, all entries kept, one style-map entry, other parts identical, conversion equal); every operation fails once (transient) and a second time "
-                "as another OSError (errno / subclass) or for good (all later operations fail too); non-trivial = the archive shrank" % (6 if tier == "quick" else 20))
+                "as another OSError (errno / subclass) or for good (all later operations fail too); plus, per package, the life of ONE file object (BytesIO, r+b file, plain "
+                "wrapper): reads / HTML / Markdown / raw-text conversions before, between and after several embeds, each held against the same call on a fresh copy of the "
+                "bytes the object holds and (reads) against the map embedded last; non-trivial = the archive shrank" % (6 if tier == "quick" else 20))
     out.sample({"history_lengths": [len(x) for x in hist]})
 
 
@@ -528,6 +633,12 @@ def replay(out, payload, model_ok):
                 out.violation("; ".join(probs[:3]), case)
                 return
             cur = f.getvalue()
+    elif case["kind"] == "embed-session":
+        tmpdir = os.path.join(WORK, "c12-%d" % os.getpid())
+        os.makedirs(tmpdir, exist_ok=True)
+        bad = run_session(data0, case["ops"], case.get("file_kind", "bytesio"), tmpdir)
+        if bad:
+            out.violation(bad[1], case)
     elif case["kind"] == "embed-fault":
         f, err = embed_under_fault(data0, case["style_map"], case["fail_at"], sticky=case.get("sticky", False), exc=case.get("exc"))
         if err is None:
